@@ -151,8 +151,8 @@ pub fn gen_inputs(rng: &mut StdRng, n: usize, with_trailing: bool) -> Vec<Input>
     let mut v = vec![];
     for i in 0..n {
         let p = Props { lc: [3, 0, 4][i % 3], lp: [0, 2, 0][i % 3], pb: [2, 0, 4][i % 3] };
-        let ns = [1usize, 5, 40, 300][i % 4];
-        let prog = random_walk(rng, &WalkCfg { nsyms: ns, props: p, max_dist: 4096, lit_alphabet: 6 });
+        let ns = [1usize, 5, 40, 300, 0][i % 5];
+        let prog = if ns == 0 { vec![] } else { random_walk(rng, &WalkCfg { nsyms: ns, props: p, max_dist: 4096, lit_alphabet: 6 }) };
         let enc = coding::encode_program(&prog, p);
         let len = enc.out.len() as u64;
         let trailing: Vec<u8> = if with_trailing {
@@ -188,7 +188,7 @@ pub fn gen_inputs(rng: &mut StdRng, n: usize, with_trailing: bool) -> Vec<Input>
         v.push(Input { fmt: Fmt::Lzma(Opt::ReadFromHeader), data: d, name: format!("lzma-marker/{}syms+{}", ns, trailing.len()), payload_len: None });
         // LZMA2
         let lp = Props { lc: p.lc.min(4), lp: p.lp.min(4 - p.lc.min(4)), pb: p.pb };
-        let prog2 = random_walk(rng, &WalkCfg { nsyms: ns, props: lp, max_dist: 4096, lit_alphabet: 6 });
+        let prog2 = random_walk(rng, &WalkCfg { nsyms: ns.max(1), props: lp, max_dist: 4096, lit_alphabet: 6 });
         let chunks = vec![
             Chunk::Raw { reset: true, data: (0..(1 + i % 40)).map(|x| x as u8).collect() },
             Chunk::Lzma { class: 3, props: Some(lp), prog: prog2 },
